@@ -59,78 +59,158 @@ func c05(p *Prog, r *Report) {
 	}
 	r.Check(s.Of(resp.Len).String() == "len(param:1.token_requests)", R1, "one slot per request", p.InstrPos(resp), "make([][]byte, len(req.token_requests))", "slots allocated with length "+s.Of(resp.Len).String()+", required len(req.token_requests)")
 
-	// Evaluate call
+	// Two accepted shapes of the per-request step: (A) written inline in the
+	// request loop; (B) moved into an in-module helper H(request) []byte called
+	// from the loop, whose returns are the slot value.
 	evals := sitesIn(fn, func(n string) bool { return strings.HasSuffix(n, "batched.Issuer).Evaluate") })
-	if len(evals) != 1 {
-		r.Fail(R2, "one issuer.Evaluate call", p.Pos(fn.Pos()), fmt.Sprintf("found %d", len(evals)))
-		return
-	}
-	ev := evals[0].(*ssa.Call)
-	inner := innermostLoop(loops, ev.Block())
-	var outer *Loop
-	for _, l := range loops {
-		if l.Blocks[ev.Block()] && inner != nil && l != inner && len(l.Blocks) > len(inner.Blocks) {
-			if outer == nil || len(l.Blocks) < len(outer.Blocks) {
-				outer = l
+	var (
+		ev      *ssa.Call     // the issuer.Evaluate call
+		es      *Sym          // evaluator of the function containing ev
+		efn     *ssa.Function // that function
+		reqIdx  string        // slot index term (in fn)
+		wantReq string        // term of the request evaluated
+		outer   *Loop         // request loop (in fn)
+		probs   []string
+		nStores int
+	)
+	slotStores := func() []*ssa.Store {
+		var out []*ssa.Store
+		for _, b := range fn.Blocks {
+			for _, in := range b.Instrs {
+				if st, ok := in.(*ssa.Store); ok {
+					if ia, ok := st.Addr.(*ssa.IndexAddr); ok && ia.X == ssa.Value(resp) {
+						out = append(out, st)
+					}
+				}
 			}
 		}
+		return out
+	}
+	for _, st := range slotStores() {
+		idx := s.Of(st.Addr.(*ssa.IndexAddr).Index).String()
+		if reqIdx == "" {
+			reqIdx = idx
+		} else if reqIdx != idx {
+			probs = append(probs, "slot stores use different indices: "+reqIdx+" vs "+idx)
+		}
+	}
+	wantReq = "index(param:1.token_requests, " + reqIdx + ")"
+	var helperCall *ssa.Call
+	switch {
+	case len(evals) == 1:
+		ev, es, efn = evals[0].(*ssa.Call), s, fn
+	case len(evals) == 0:
+		for _, st := range slotStores() {
+			c, ok := st.Val.(*ssa.Call)
+			if !ok {
+				continue
+			}
+			h := c.Call.StaticCallee()
+			if h == nil || !InModule(h) || h.Blocks == nil {
+				continue
+			}
+			hev := sitesIn(h, func(n string) bool { return strings.HasSuffix(n, "batched.Issuer).Evaluate") })
+			if len(hev) != 1 {
+				continue
+			}
+			hs := s.child(h)
+			for i, prm := range h.Params {
+				if i < len(c.Call.Args) {
+					hs.params[prm] = s.Of(c.Call.Args[i])
+				}
+			}
+			ev, es, efn, helperCall = hev[0].(*ssa.Call), hs, h, c
+		}
+	}
+	if ev == nil {
+		r.Fail(R2, "one issuer.Evaluate call", p.Pos(fn.Pos()), fmt.Sprintf("found %d in EvaluateBatch and no per-request helper containing exactly one", len(evals)))
+		return
+	}
+	eloops := naturalLoops(efn)
+	inner := innermostLoop(eloops, ev.Block())
+	if helperCall == nil {
+		for _, l := range loops {
+			if l.Blocks[ev.Block()] && inner != nil && l != inner && len(l.Blocks) > len(inner.Blocks) {
+				if outer == nil || len(l.Blocks) < len(outer.Blocks) {
+					outer = l
+				}
+			}
+		}
+	} else {
+		outer = innermostLoop(loops, helperCall.Block())
 	}
 	if inner == nil || outer == nil {
-		r.Fail(R3, "request loop and issuer loop", p.InstrPos(ev), "issuer.Evaluate is not inside an issuer loop nested in the request loop")
+		r.Fail(R3, "request loop and issuer loop", p.InstrPos(ev), "issuer.Evaluate is not inside an issuer loop nested in (or called from) the request loop")
 		return
 	}
 
 	// slot stores
-	var reqIdx string
-	nStores := 0
-	var probs []string
-	for _, b := range fn.Blocks {
-		for _, in := range b.Instrs {
-			st, ok := in.(*ssa.Store)
-			if !ok {
+	for _, st := range slotStores() {
+		nStores++
+		if !outer.Blocks[st.Block()] {
+			probs = append(probs, "slot store outside the request loop at "+p.InstrPos(st))
+		}
+		if isEmptyBytes(s, st.Val) {
+			continue
+		}
+		if helperCall != nil {
+			if st.Val != ssa.Value(helperCall) {
+				probs = append(probs, "slot store at "+p.InstrPos(st)+" stores "+clip(s.Of(st.Val).String(), 160)+", neither empty nor the per-request result")
+			}
+			continue
+		}
+		ex, isEx := st.Val.(*ssa.Extract)
+		if !isEx || ex.Tuple != ssa.Value(ev) || ex.Index != 0 {
+			probs = append(probs, "slot store at "+p.InstrPos(st)+" stores "+clip(s.Of(st.Val).String(), 160)+", neither empty nor the result of issuer.Evaluate")
+			continue
+		}
+		if !s.factsHaveCallSuccess(st.Block(), ev) {
+			probs = append(probs, "slot store at "+p.InstrPos(st)+" is not behind err == nil of issuer.Evaluate")
+		}
+	}
+	if helperCall != nil {
+		// every value the helper returns is empty or Evaluate's result on err == nil
+		for _, rp := range es.ff.RetPoints(-1) {
+			if len(rp.Vals) != 1 {
+				probs = append(probs, "the per-request helper does not return exactly the slot value")
 				continue
 			}
-			ia, ok := st.Addr.(*ssa.IndexAddr)
-			if !ok || ia.X != ssa.Value(resp) {
+			v := rp.Vals[0]
+			if isEmptyBytes(es, v) {
 				continue
 			}
-			nStores++
-			idx := s.Of(ia.Index).String()
-			if reqIdx == "" {
-				reqIdx = idx
-			} else if reqIdx != idx {
-				probs = append(probs, "slot stores use different indices: "+reqIdx+" vs "+idx)
-			}
-			if !outer.Blocks[st.Block()] {
-				probs = append(probs, "slot store outside the request loop at "+p.InstrPos(st))
-			}
-			if isEmptyBytes(s, st.Val) {
-				continue
-			}
-			ex, isEx := st.Val.(*ssa.Extract)
+			ex, isEx := v.(*ssa.Extract)
 			if !isEx || ex.Tuple != ssa.Value(ev) || ex.Index != 0 {
-				probs = append(probs, "slot store at "+p.InstrPos(st)+" stores "+clip(s.Of(st.Val).String(), 160)+", neither empty nor the result of issuer.Evaluate")
+				probs = append(probs, "per-request helper returns "+clip(es.Of(v).String(), 160)+" at "+p.Pos(rp.Ret.Pos())+", neither empty nor the result of issuer.Evaluate")
 				continue
 			}
-			if !s.factsHaveCallSuccess(st.Block(), ev) {
-				probs = append(probs, "slot store at "+p.InstrPos(st)+" is not behind err == nil of issuer.Evaluate")
+			okS := false
+			for _, a := range rp.Facts {
+				if cc, ok, succ := callOfAtom(a); ok && succ && cc == ev {
+					okS = true
+				}
+			}
+			if !okS {
+				probs = append(probs, "per-request helper returns the Evaluate result at "+p.Pos(rp.Ret.Pos())+" without err == nil")
 			}
 		}
 	}
 	r.Check(len(probs) == 0 && nStores > 0, R2, "slot sources", p.InstrPos(resp), fmt.Sprintf("%d stores: empty or Evaluate result on err == nil, index %s", nStores, clip(reqIdx, 80)), strings.Join(probs, "; "))
 
 	// the index is the request loop's: the request evaluated is requests[idx]
-	evT := s.callTerm(ev)
+	evT := es.callTerm(ev)
 	reqArg := arg(evT, 1).String()
-	wantReq := "index(param:1.token_requests, " + reqIdx + ")"
 	r.Check(reqArg == wantReq, R1, "slot index = index of the request evaluated", p.InstrPos(ev), wantReq, "issuer evaluates "+clip(reqArg, 200)+" but the slot written is #"+clip(reqIdx, 80))
 
 	// R4 lookup
 	issuerT := arg(evT, 0).String()
 	list := "extract<0>(lookup(param:0.issuers, call<(tokens.TokenRequestWithDetails).Type>(" + wantReq + ")))"
+	if list2 := "lookup(param:0.issuers, call<(tokens.TokenRequestWithDetails).Type>(" + wantReq + "))"; glob("index("+list2+", *)", issuerT) {
+		list = list2 // plain lookup: a missing type yields a nil list, over which the issuer loop does not iterate
+	}
 	r.Check(glob("index("+list+", *)", issuerT), R4, "issuer comes from the list registered under the request's type", p.InstrPos(ev), "i.issuers[req.Type()][k]", "issuer is "+clip(issuerT, 300)+", required an element of "+list)
 	keyOK := false
-	for _, a := range s.ff.At(ev.Block()) {
+	for _, a := range es.ff.At(ev.Block()) {
 		if a.Kind != Truth {
 			continue
 		}
@@ -142,7 +222,7 @@ func c05(p *Prog, r *Report) {
 		if !eq {
 			continue
 		}
-		x, y := s.Of(bo.X).String(), s.Of(bo.Y).String()
+		x, y := es.Of(bo.X).String(), es.Of(bo.Y).String()
 		kid := "call<(tokens/batched.Issuer).TokenKeyID>(" + issuerT + ")"
 		last := "index(" + kid + ", bin<->(len(" + kid + "), const:1))"
 		trunc := "call<(tokens.TokenRequestWithDetails).TruncatedTokenKeyID>(" + wantReq + ")"
@@ -151,18 +231,22 @@ func c05(p *Prog, r *Report) {
 		}
 	}
 	r.Check(keyOK, R4, "Evaluate only behind truncated key id == last byte of the issuer's key id", p.InstrPos(ev), "req.TruncatedTokenKeyID() == issuerKey[len(issuerKey)-1]", "issuer.Evaluate is reachable without the comparison of the request's truncated key id with the LAST byte of this issuer's TokenKeyID()")
-	// list lookup ok fact
+	// unsupported type: Evaluate is behind ok=true of the lookup, or the loop
+	// ranges over the looked-up list (a missing type gives a nil list: no iteration)
 	okLookup := false
-	for _, a := range s.ff.At(ev.Block()) {
+	for _, a := range es.ff.At(ev.Block()) {
 		if a.Kind == Truth && a.Pol {
 			if ex, ok := a.V.(*ssa.Extract); ok && ex.Index == 1 {
-				if lk, ok := ex.Tuple.(*ssa.Lookup); ok && "extract<0>("+s.Of(lk).String()+")" == list {
+				if lk, ok := ex.Tuple.(*ssa.Lookup); ok && "extract<0>("+es.Of(lk).String()+")" == list {
 					okLookup = true
 				}
 			}
 		}
 	}
-	r.Check(okLookup, R4, "unsupported type: lookup ok=false leaves the slot empty", p.InstrPos(ev), "Evaluate behind ok=true of the type lookup", "issuer.Evaluate is not behind ok=true of i.issuers[req.Type()]")
+	if !okLookup && glob("index("+list+", *)", issuerT) {
+		okLookup = true // the issuer is an element of the looked-up list: an absent type has no elements
+	}
+	r.Check(okLookup, R4, "unsupported type: lookup ok=false leaves the slot empty", p.InstrPos(ev), "Evaluate only for an element of i.issuers[req.Type()]", "issuer.Evaluate is not behind ok=true of i.issuers[req.Type()]")
 
 	// R3 isolation
 	bad := ""
@@ -171,6 +255,15 @@ func c05(p *Prog, r *Report) {
 			switch in.(type) {
 			case *ssa.Return, *ssa.Panic:
 				bad = p.InstrPos(in)
+			}
+		}
+	}
+	if helperCall != nil {
+		for _, b := range efn.Blocks {
+			for _, in := range b.Instrs {
+				if _, ok := in.(*ssa.Panic); ok {
+					bad = p.InstrPos(in)
+				}
 			}
 		}
 	}
